@@ -41,24 +41,25 @@ def after (s : State) (r : Resv) (f : Flight) (b a : String) : State :=
 
 /-- **Exactness.** In a state where the runtime may respond, the whole effect of a response is:
     size ≤ limit → 202 and the caller's writer holds exactly the posted body;
-    size > limit → 413 and the caller's writer holds the `Function.ResponseSizeTooLarge` error.
+    size > limit → 413 and the caller's writer holds the `Function.ResponseSizeTooLarge` error
+    stating both sizes (the response's real size and the limit).
     In both cases the runtime moves on to `ResponseSent`, the response barrier gets its arrival (so
     the invocation completes), the reply is marked sent — and nothing else changes: in particular
     the handler queue is untouched, i.e. **no reset is requested**. -/
 theorem C14_exact (s : State) (r : Resv) (f : Flight) (size : Nat) (h : String) (hs : CanRespond s r f) :
     rtResponse s (some r.k) size h false =
       if size ≤ maxPayload then after s r f (if size == 0 then "empty" else s!"bytes:{h}") "202"
-      else after s r f "errjson:Function.ResponseSizeTooLarge" "413,RequestEntityTooLarge" := by
+      else after s r f s!"errjson:Function.ResponseSizeTooLarge:{size}:{maxPayload}" "413,RequestEntityTooLarge" := by
   obtain ⟨hrt, hresv, hns, hst, hf, hg⟩ := hs
   rw [rtResponse_running s r size h hrt hresv]
   have := rtDeliver_eq { s with rt := some RtState.invocationResponse } r f "response"
-    (if size == 0 then "empty" else s!"bytes:{h}") (decide (size > maxPayload)) .invocationResponse (Or.inl rfl) rfl hresv hns hst hf hg
+    (if size == 0 then "empty" else s!"bytes:{h}") (if size > maxPayload then some size else none) .invocationResponse (Or.inl rfl) rfl hresv hns hst hf hg
   rw [this]
   by_cases hle : size ≤ maxPayload
-  · have : decide (size > maxPayload) = false := by simp; omega
-    simp [this, hle, after]
-  · have : decide (size > maxPayload) = true := by simp; omega
-    simp [this, hle, after]
+  · have hng : ¬ (size > maxPayload) := by omega
+    simp [hng, hle, after]
+  · have hgt : size > maxPayload := by omega
+    simp [hgt, hle, after]
 
 /-- corollary: what the runtime and the caller see, and that no reset is queued -/
 theorem C14_outcomes (s : State) (r : Resv) (f : Flight) (size : Nat) (h : String) (hs : CanRespond s r f) :
